@@ -51,6 +51,8 @@ HAY_YAML = [
     # integers beyond what a float can tell apart
     "9007199254740993", "9007199254740992", '"9007199254740993"',
     "-9007199254740993",
+    # floats which differ only in the last places
+    "0.30000000000000004", "0.3", "1.0000000001", "2.5000000001",
 ]
 NEEDLES = [
     "", " ", "0", "1", "-1", "1000", "1.0", "2.5", "01", "a", "A", "ab", "b",
@@ -59,6 +61,7 @@ NEEDLES = [
     ".", "a|b", "2020", "é", "1+", "...", "-0.5",
     "1.10", "1.50", "3.00", "1.1.5", "5.",
     "9007199254740992", "9007199254740993", "-9007199254740992",
+    "0.3", "0.30000000000000004", "1.0000000001", "2.5000000001",
     "2.50", "1.00", "-0.50", "1000.0", "1e3", "2.5e0",
 ]
 _HAYS = None
